@@ -163,3 +163,42 @@ func structLitField(alloc ssa.Value, name string) ssa.Value {
 	}
 	return val
 }
+
+// mapLiteralConstValue: the constant string stored under key in the map
+// composite literal v (prometheus.Labels{"status": "matched", ...}), if any.
+func mapLiteralConstValue(v ssa.Value, key string) (string, bool) {
+	v = strip(v)
+	for i := 0; i < 4; i++ {
+		if ct, ok := v.(*ssa.ChangeType); ok {
+			v = strip(ct.X)
+		}
+	}
+	mm, ok := v.(*ssa.MakeMap)
+	if !ok || mm.Referrers() == nil {
+		return "", false
+	}
+	out, found := "", false
+	var walk func(val ssa.Value)
+	walk = func(val ssa.Value) {
+		if val.Referrers() == nil {
+			return
+		}
+		for _, r := range *val.Referrers() {
+			switch x := r.(type) {
+			case *ssa.MapUpdate:
+				if x.Map != val {
+					continue
+				}
+				if k, ok := constString(x.Key); ok && k == key {
+					if s, oks := constString(x.Value); oks {
+						out, found = s, true
+					}
+				}
+			case *ssa.ChangeType:
+				walk(x)
+			}
+		}
+	}
+	walk(mm)
+	return out, found
+}
